@@ -51,7 +51,7 @@ NCELL = H * W
 REPAIRS = int(os.environ.get("VERIF_REPAIRS", "2"))
 ORDMIN = int(os.environ.get("VERIF_ORDMIN", "0"))
 ORDMAX = int(os.environ.get("VERIF_ORDMAX", "2"))
-MODE = os.environ.get("VERIF_MODE", "all")      # which bound parameters are symbolic: all | counts | sizes | mn | mx | smin | smax | none (others are None)
+MODE = os.environ.get("VERIF_MODE", "all")      # which bound parameters are symbolic: all | counts | sizes | mnsmax | mn | mx | smin | smax | none (others are None)
 
 
 def _mode(mn, mx, smin, smax):
@@ -61,6 +61,8 @@ def _mode(mn, mx, smin, smax):
         return None, None, smin, smax
     if MODE == "none":
         return None, None, None, None
+    if MODE == "mnsmax":                              # least number of blocks and largest block size bounded together
+        return mn, None, None, smax
     if MODE in ("mn", "mx", "smin", "smax"):        # one parameter symbolic
         return (mn if MODE == "mn" else None, mx if MODE == "mx" else None, smin if MODE == "smin" else None,
                 smax if MODE == "smax" else None)
